@@ -212,7 +212,7 @@ def task(cfg):
         return None
 
     cov, viols = explore(lambda: build_world(cfg), PROP, label(cfg), max_depth=cfg.get("D"),
-                         max_states=cfg.get("max_states"), ctx=ctx_of(cfg), want_samples=1, on_state=on_state)
+                         max_states=cfg.get("max_states"), ctx=ctx_of(cfg), want_samples=2, on_state=on_state)
     cov.extra.update(stats)
     cov.outcome("cfg:prio=" + PRIOS[cfg["prio"]][0] + ("(default)" if cfg["prio"] == "default" else ""))
     cov.outcome("cfg:mode=" + cfg["mode"])
@@ -340,7 +340,7 @@ def run(tier, seed):
     seen_enum = {}
     samples = {"mo": [], "enum": []}
     for (kind, _), (cov, payload) in zip(jobs, outs):
-        samples[kind] += cov.samples[:1] if len(samples[kind]) < 3 else []
+        samples[kind] += cov.samples[-1:] if len(samples[kind]) < 3 else []
         cov.samples = []
         res.cov.merge(cov)
         if kind == "mo":
